@@ -479,5 +479,46 @@ func c16Child(a *ChildArgs) {
 			}
 		}
 	}
+	// several findings of different severities in one text: a raised threshold removes exactly those below it, however
+	// many of them stand next to each other in the result
+	if a.Shard == 0 {
+		for _, sql := range []string{
+			"SELECT a FROM t WHERE SLEEP(5) = 0 AND BENCHMARK(10, 1) = 0", "SELECT pg_sleep(5), SLEEP(5), BENCHMARK(1, 1) FROM t", "SELECT a FROM t WHERE b = 1 AND SLEEP(5) = 0 -- c",
+			"SELECT a FROM t WHERE x = 1 OR 1=1 OR SLEEP(1) = 0 OR BENCHMARK(1, 1) = 0 OR 'a'='a' -- c", "SELECT SLEEP(1), pg_sleep(2), LOAD_FILE('f'), BENCHMARK(3, 4) FROM t WHERE 1=1 /* c */ -- d",
+			"SELECT a FROM t WHERE SLEEP(1) = 0; SELECT b FROM u WHERE pg_sleep(2) = 0; SELECT c FROM v WHERE 1=1", "EXEC('x'); EXEC sp_executesql N'y'",
+		} {
+			for _, ep := range c16EPs() {
+				_, all, err := ep.F(sql, security.SeverityLow)
+				if err != nil || all == nil {
+					continue
+				}
+				for _, min := range sevLevels[1:] {
+					_, rmin, err := ep.F(sql, min)
+					if err != nil || rmin == nil {
+						continue
+					}
+					a.Rec.Count("evaluations", 1)
+					var want, gotl []string
+					for _, f := range all.Findings {
+						if sevRank[f.Severity] >= sevRank[min] {
+							want = append(want, string(f.Pattern)+"/"+string(f.Severity)+"/"+f.Description)
+						}
+					}
+					for _, f := range rmin.Findings {
+						gotl = append(gotl, string(f.Pattern)+"/"+string(f.Severity)+"/"+f.Description)
+					}
+					sort.Strings(want)
+					sort.Strings(gotl)
+					if strings.Join(want, "|") != strings.Join(gotl, "|") {
+						a.Rec.Viol("C16/"+ep.Name+"/threshold-many/"+string(min), "raising the minimum severity removes exactly the findings below it",
+							fmt.Sprintf("min=%s want %v got %v", min, want, gotl), map[string]interface{}{"sql": sql, "findings_at_low": len(all.Findings)})
+					}
+					if msg := c16CountsConsistent(rmin); msg != "" {
+						a.Rec.Viol("C16/"+ep.Name+"/counts", "total and per-severity counts equal the findings listed", msg, map[string]interface{}{"sql": sql, "min": string(min)})
+					}
+				}
+			}
+		}
+	}
 	_ = mon.Hash
 }
